@@ -306,6 +306,7 @@ void vh_violation(const char *site, const char *fmt, ...)
     s->violations++;
     if (__atomic_add_fetch(&SH->nviol, 1, __ATOMIC_RELAXED) >= opt_maxviol * 40) SH->stop = 1;
 }
+long vh_violations(void) { return SH ? SH->w[W].violations : 0; }
 void vh_note(const char *fmt, ...)
 {
     char det[1024]; va_list ap; va_start(ap, fmt); vsnprintf(det, sizeof det, fmt, ap); va_end(ap);
